@@ -99,3 +99,18 @@ func verifSkipMicroFix(op *OutPt) bool {
 	}
 	return false
 }
+
+// verifKeepSplitLoops is the counter-factual switch of the 'doSplitOp discards a real loop' finding:
+// when set, a split-off loop that is not micro (|area| > 4) is kept as its own output polygon even
+// if it is smaller than, and oriented against, the remaining ring.
+var verifKeepSplitLoops bool
+
+// VerifSetKeepSplitLoops sets the counter-factual switch.
+func VerifSetKeepSplitLoops(on bool) { verifKeepSplitLoops = on }
+
+func verifSplitArea(area1, area2 float64) float64 {
+	if verifKeepSplitLoops && (area2 > 4 || area2 < -4) && (area2 > 0) != (area1 > 0) {
+		return -area2
+	}
+	return area2
+}
